@@ -263,6 +263,7 @@ def classify(run, tags, spans, fns, sections, lines, fn_props):
                 names.append("hash_budget")
             if any(n.startswith("dep.") for n in names):
                 dprops.add("C05")
+                dprops.update(fn_props.get(fkey, []))   # undefined behaviour / a dependency panic inside F in place of what F's contract serves
         elif "callee.requires" in msg:
             # a call of a user closure whose precondition the contract does not grant
             if re.search(r"\bhasher\s*\(", text) and not names:
@@ -625,6 +626,13 @@ def explained_by_lost_hint(res, failure):
             _HINT_SERVES = {}
     for sk in (res.get("meta", {}) or {}).get("skipped_anchors", []):
         if sk.get("fn") != failure["fn"]:
+            continue
+        if sk.get("excuses") is False:
+            continue   # recorded for the log only: there is nothing in the function the lost spec could have served
+        if sk.get("kind") == "closure":
+            ent = _HINT_SERVES.get("closure:%s#%s" % (sk.get("fn"), sk.get("ordinal")))
+            if ent is None or ent.get("serves") is None or failure["name"] in ent["serves"]:
+                return True
             continue
         if sk.get("kind") != "ghost":
             return True
